@@ -107,6 +107,15 @@ def variable_laws():
                     (ContinuousMultiVariable, dict(lower_bounds=[0, 1], upper_bounds=[1, 1])),
                     (ContinuousMultiVariable, dict(lower_bounds=[0, 2], upper_bounds=[1, 1])),
                     (MultiObjectiveVariable, dict(lower_bounds=[0, 1], upper_bounds=[1, 1])),
+                    # length mismatches of every shape (1 vs n is what numpy broadcasting would accept)
+                    (ContinuousMultiVariable, dict(lower_bounds=[-5], upper_bounds=[5, 5, 5])),
+                    (ContinuousMultiVariable, dict(lower_bounds=[-5, -5, -5], upper_bounds=[5])),
+                    (ContinuousMultiVariable, dict(lower_bounds=[-5, -5], upper_bounds=[5, 5, 5])),
+                    (ContinuousMultiVariable, dict(lower_bounds=[], upper_bounds=[5])),
+                    (MultiObjectiveVariable, dict(lower_bounds=[-5], upper_bounds=[5, 5])),
+                    (MultiObjectiveVariable, dict(lower_bounds=[-5, 0], upper_bounds=[5])),
+                    (ContinuousMultiVariable, dict(lower_bounds=[0, 1, 5], upper_bounds=[1, 2, 5])),
+                    (MultiObjectiveVariable, dict(lower_bounds=[0, 3], upper_bounds=[1, 2])),
                     (BinaryVariable, dict(n_vars=0)), (BinaryVariable, dict(n_vars=-2))]:
         try:
             cls(name="bad", **kw)
